@@ -449,10 +449,12 @@ class Gen:
             # `E = foo+1, X is E` in ONE clause body is no better (the compiler propagates the unification into the
             # expression: wrong culprit `user/0`, or the error is lost inside \+; notes/findings-misc.md, C02/C03's
             # business): the expression comes out of a fact
+            # … and the result variable must not be a singleton: `_ is E` (void result) reports a garbage culprit or
+            # loses the error inside \+ even when E comes from elsewhere (same note)
             e = self.fresh("U")
-            return S(",", S("xe_%s" % self.cid, e), S("is", x, e))
+            return conj([S("xe_%s" % self.cid, e), S("is", x, e), S("=", x, x)])
         if c == 1:
-            return S("is", self.fresh("N"), S("+", self.fresh("U"), I(1)))
+            return conj([S("is", x, S("+", self.fresh("U"), I(1))), S("=", x, x)])
         if c == 2:
             return S("is", x, S("//", I(1), I(0)))
         if c == 3:
